@@ -19,7 +19,9 @@ import time
 
 VERIF = os.path.dirname(os.path.dirname(os.path.abspath(__file__)))
 ENV = dict(os.environ, GOFLAGS="-mod=mod", GOPROXY="off", GOSUMDB="off", GOTOOLCHAIN="local")
-CHEAP = ["C01", "C07", "C08", "C09", "C10", "C11", "C12", "C14", "C15", "C17", "C18", "C19", "C20"]
+CHEAP = ["C01", "C06", "C07", "C08", "C09", "C10", "C11", "C12", "C13", "C14", "C15", "C16", "C17", "C18", "C19", "C20"]
+REPO = "/repo"      # where the patch is applied for the detection runs (a scratch copy with --repo)
+RUNV = VERIF        # the copy of /verif whose checks are run (--verif)
 
 
 def sh(cmd, cwd=None, timeout=1800):
@@ -27,8 +29,21 @@ def sh(cmd, cwd=None, timeout=1800):
     return p.returncode, p.stdout
 
 
+def _term(*_):
+    raise KeyboardInterrupt()
+
+
 def main():
+    global REPO, RUNV
+    import signal
+    signal.signal(signal.SIGTERM, _term)
+    signal.signal(signal.SIGINT, _term)
     sid, src, demodir = sys.argv[1], sys.argv[2], sys.argv[3]
+    if "--repo" in sys.argv:
+        REPO = sys.argv[sys.argv.index("--repo") + 1]
+    if "--verif" in sys.argv:
+        RUNV = sys.argv[sys.argv.index("--verif") + 1]
+    ENV["VERIF_REPO"] = REPO
     checks = None
     if "--checks" in sys.argv:
         checks = sys.argv[sys.argv.index("--checks") + 1].split(",")
@@ -74,23 +89,29 @@ def main():
     detected = {}
     if meta["confirmed"]:
         todo = checks or sorted(set(CHEAP + [prop]))
-        rc, out = sh(["git", "-C", "/repo", "status", "--porcelain"])
-        assert out.strip() == "", "/repo is not clean"
+        rc, out = sh(["git", "-C", REPO, "status", "--porcelain"])
+        assert out.strip() == "", REPO + " is not clean"
         try:
-            rc, out = sh(["git", "-C", "/repo", "apply", patch])
+            rc, out = sh(["git", "-C", REPO, "apply", patch])
             assert rc == 0, out
             for c in todo:
                 t0 = time.time()
-                rc, out = sh(["python3", os.path.join(VERIF, "check.py"), c], cwd=VERIF, timeout=3600)
+                rc, out = sh(["python3", os.path.join(RUNV, "check.py"), c], cwd=RUNV, timeout=3600)
                 line = [l for l in out.splitlines() if l.startswith("VIOLATION")]
-                detected[c] = {"exit": rc, "violation": line[0] if line else None, "wall_s": round(time.time() - t0, 1)}
+                detected[c] = {"exit": rc, "violation": (line[0].replace(RUNV, "/verif") if line else None),
+                               "no_failing_input": bool(line and line[0].rstrip().endswith("no-failing-input-found")),
+                               "wall_s": round(time.time() - t0, 1)}
+                if rc not in (0, 1):
+                    detected[c]["output_tail"] = out[-600:]
                 print(sid, c, rc, line[0] if line else "-", flush=True)
         finally:
-            sh(["git", "-C", "/repo", "checkout", "--", "."])
-            shutil.rmtree(os.path.join(VERIF, "replays"), ignore_errors=True)
-            sh(["git", "checkout", "--", "evidence"], cwd=VERIF)
+            sh(["git", "-C", REPO, "checkout", "--", "."])
+            shutil.rmtree(os.path.join(RUNV, "replays"), ignore_errors=True)
+            if RUNV == VERIF:
+                sh(["git", "checkout", "--", "evidence"], cwd=VERIF)
     meta["checks"] = detected
     meta["caught_by"] = sorted(c for c, d in detected.items() if d["exit"] == 1 and d["violation"])
+    meta["caught_with_failing_input"] = sorted(c for c, d in detected.items() if d["exit"] == 1 and d["violation"] and not d["no_failing_input"])
     with open(os.path.join(dst, "meta.json"), "w") as f:
         json.dump(meta, f, indent=1)
     print(sid, "confirmed" if meta["confirmed"] else "NOT CONFIRMED: " + meta.get("problem", ""), "caught by", meta["caught_by"], flush=True)
